@@ -28,10 +28,11 @@ Inductive case :=
 | CHist (cfg : nat) (steps : list (op * outcome unit)) (ob : obs) (probes : list probe)
 (* one frequency-carrying MAC command: kind, inputs, band-own frequency?, bytes, decoded fields
      0 RXParamSetupReq [f; rx2dr]   1 NewChannelReq [chindex; f; maxdr; mindr]
-     2 DLChannelReq [chindex; f]    3 BeaconFreqReq [f]   4 PingSlotChannelReq [f; dr] *)
-| CFreq (k : N) (ins : list Z) (own : bool) (o_enc : outcome (list N)) (o_dec : outcome (list Z))
+     2 DLChannelReq [chindex; f]    3 BeaconFreqReq [f]   4 PingSlotChannelReq [f; dr]
+   [lo, hi] is the span of the band's own frequencies (channels, RX2, ping-slot) *)
+| CFreq (k : N) (ins : list Z) (own : bool) (lo hi : Z) (o_enc : outcome (list N)) (o_dec : outcome (list Z))
 (* a CFList offered by a band through CFList.MarshalBinary / UnmarshalBinary *)
-| CCFList (cf : cflist) (o_enc : outcome (list N)) (o_dec : outcome cflist).
+| CCFList (cf : cflist) (lo hi : Z) (o_enc : outcome (list N)) (o_dec : outcome cflist).
 
 Definition default_st := mkSt false 0 0 [] [] [].
 Definition cfg_st (cfg : nat) : st :=
@@ -56,9 +57,6 @@ Definition probe_model (s : st) (p : probe) : bool :=
 Definition ok_channels (l : list (outcome channel)) : list channel :=
   flat_map (fun o => match o with Ok c => [c] | _ => [] end) l.
 
-Definition zidx_opt {A} (l : list A) (i : Z) : option A :=
-  if i <? 0 then None else nth_error l (Z.to_nat i).
-
 (* answers required for an index: the entry inside the table, an error outside *)
 Definition index_answer_ok {A} (eqb : A -> A -> bool) (t : list A) (i : Z) (o : outcome A) : bool :=
   match zidx_opt t i, o with
@@ -74,7 +72,7 @@ Definition probe_prop (s0 : st) (t : list channel) (dn : list channel) (p : prob
   | PTxp i o => index_answer_ok Z.eqb (txp s0) i o
   | PIdx f d o =>
     match o with
-    | Ok i => matches_freq t f d i && negb (existsb (matches_freq t f d) (zrange i))
+    | Ok i => if matches_freq t f d i then negb (existsb (matches_freq t f d) (zrange i)) else false
     | Err => negb (existsb (matches_freq t f d) (zrange (zlen t)))
     | _ => false
     end
@@ -111,15 +109,22 @@ Definition freq_kind_model (k : N) (ins : list Z) : outcome (list Z) * (list Z -
   | _, _ => (Panic, fun _ => Panic)
   end.
 
-(* premise under which a user-supplied value must survive the encoder *)
+(* premise under which a user-supplied value must survive the encoder: data-rates
+   0..15; frequency a multiple of 100 Hz that is below 2^24*100 Hz or lies inside
+   the span of the band's own frequencies (NewChannelReq: its own 200 Hz rule
+   from 2.4 GHz instead) *)
 Definition dr_ok (d : Z) : bool := (0 <=? d) && (d <=? 15).
-Definition freq_kind_premise (k : N) (ins : list Z) : bool :=
+Definition user_freq_ok (lo hi f : Z) : bool :=
+  freq_ok f || ((f mod 100 =? 0) && (lo <=? f) && (f <=? hi)).
+Definition newchannel_user_freq_ok (f : Z) : bool :=
+  freq_ok f || ((2400000000 <=? f) && (f mod 200 =? 0) && (f / 200 <? 16777216)).
+Definition freq_kind_premise (lo hi : Z) (k : N) (ins : list Z) : bool :=
   match k, ins with
-  | 0%N, [f; d] => freq_ok f && dr_ok d
-  | 1%N, [ch; f; mx; mn] => newchannel_freq_ok f && dr_ok mx && dr_ok mn
-  | 2%N, [ch; f] => freq_ok f
-  | 3%N, [f] => freq_ok f
-  | 4%N, [f; d] => freq_ok f && dr_ok d
+  | 0%N, [f; d] => user_freq_ok lo hi f && dr_ok d
+  | 1%N, [ch; f; mx; mn] => newchannel_user_freq_ok f && dr_ok mx && dr_ok mn
+  | 2%N, [ch; f] => user_freq_ok lo hi f
+  | 3%N, [f] => user_freq_ok lo hi f
+  | 4%N, [f; d] => user_freq_ok lo hi f && dr_ok d
   | _, _ => false
   end.
 
@@ -162,19 +167,19 @@ Definition check (c : case) : N :=
           && list_eqb ocf_eqb (o_cf ob) (map (spec_cflist (extra s0) (cfmin s0) (cfmax s0) t) pversions)
           (* lookups and invalid indices *)
           && forallb (probe_prop s0 t (o_down ob)) probes)
-  | CFreq k ins own o_enc o_dec =>
+  | CFreq k ins own lo hi o_enc o_dec =>
     let m := freq_kind_model k ins in
     let oe := omap (map Z.of_N) o_enc in
     code (zs_eqb (fst m) oe && zs_eqb (match oe with Ok b => snd m b | _ => Err end) o_dec)
          (negb (is_panic o_enc) && negb (is_panic o_dec)
-          && (if own || freq_kind_premise k ins then zs_eqb o_dec (Ok ins) else true))
-  | CCFList cf o_enc o_dec =>
+          && (if own || freq_kind_premise lo hi k ins then zs_eqb o_dec (Ok ins) else true))
+  | CCFList cf lo hi o_enc o_dec =>
     let oe := omap (map Z.of_N) o_enc in
     code (zs_eqb (cflist_marshal cf) oe
           && outcome_eqb cflist_eqb (match oe with Ok b => cflist_unmarshal b | _ => Err end) o_dec)
          (negb (is_panic o_enc) && negb (is_panic o_dec)
           && match cf with
-             | CFChannels fs => if forallb freq_ok fs then outcome_eqb cflist_eqb o_dec (Ok cf) else true
+             | CFChannels fs => if forallb (fun f => (f =? 0) || user_freq_ok lo hi f) fs then outcome_eqb cflist_eqb o_dec (Ok cf) else true
              | CFMasks ms => outcome_eqb cflist_eqb o_dec (Ok cf)
              end)
   end.
